@@ -600,4 +600,133 @@ Section PRev.
         apply (HL (ip s + 1) _ (tok / 16) r Hrl); try assumption; lia.
   Qed.
 
+  (* ====================== the fast loop in partial mode ====================== *)
+  Lemma fast_match_pany s offset length :
+    0 <= offset <= 65535 -> 4 <= length -> 0 <= op s -> op s + length < oend - 64 ->
+    match fast_match true dict oend lowPrefix rlow dictm dictSize s offset length with
+    | Err _ => True
+    | Done _ => False
+    | Cont f s' => ip s' = ip s /\ op s' = op s + length /\
+                   (1 <= offset -> same_below (dm s) (dm s') (op s) /\
+                                   frec (vget (dm s')) offset (op s) (op s + length) /\
+                                   lowPrefix - hroom <= op s - offset)
+    end.
+  Proof.
+    intros Ho Hlen Hop Hroom.
+    assert (Hip : match fast_match true dict oend lowPrefix rlow dictm dictSize s offset length with
+                  | Cont _ s' => ip s' = ip s /\ op s' = op s + length | Done _ => False | Err _ => True end).
+    { unfold fast_match, ext_match. cbv zeta. cbn [andb negb].
+      assert (Eov : (op s + length >? oend - LASTLITERALS) = false) by fin. rewrite Eov. cbn [andb].
+      repeat match goal with
+      | |- match (if ?c then _ else _) with _ => _ end => destruct c
+      end; cbn [ip op]; try exact I; split; try reflexivity; lia. }
+    destruct (checkOffset dictSize && (op s - offset + dictSize <? lowPrefix)) eqn:Echk.
+    { unfold fast_match. cbv zeta. rewrite Echk. exact I. }
+    assert (Hacc : lowPrefix - hroom <= op s - offset).
+    { unfold DecRefineSafe.hroom. destruct (is_extdict dict) eqn:Ee.
+      - unfold checkOffset in Echk. lia.
+      - rewrite (Hext eq_refl) in Echk. unfold checkOffset in Echk. lia. }
+    destruct (Z_le_gt_dec 1 offset) as [H1|H0].
+    - pose proof (fast_match_sim true dict oend lowPrefix rlow dictm dictSize HlowP Hds s offset length H1 Hacc Hlen Hop Hroom) as H.
+      destruct (fast_match true dict oend lowPrefix rlow dictm dictSize s offset length) as [f s'|s'|s'];
+        cbn [is_cont_any] in H; try contradiction; try exact I.
+      destruct H as (Ha & Hb & Hc & Hd). split; [exact Ha|]. split; [exact Hb|]. intros _. repeat split; assumption.
+    - destruct (fast_match true dict oend lowPrefix rlow dictm dictSize s offset length) as [f s'|s'|s']; try exact Hip; try exact I.
+      destruct Hip as [Ha Hb]. split; [exact Ha|]. split; [exact Hb|]. intros; lia.
+  Qed.
+
+  (* from the offset field on, fast loop, partial mode *)
+  Lemma fast_offset_pcases (i o : Z) (m1 : mem) kf tok o1 o2 (r3 : list Z) rout lits :
+    src_at srcm i (o1 :: o2 :: r3) -> bytes (o1 :: o2 :: r3) -> i + Z.of_nat (length (o1 :: o2 :: r3)) = iend ->
+    (1 <= length r3)%nat -> 0 <= tok < 256 -> 0 <= o -> 0 <= i -> o + Z.of_nat (length lits) <= oend ->
+    out_at (vget m1) (o + Z.of_nat (length lits)) (rev lits ++ rout) -> pavail o rout ->
+    match fast_offset true dict srcm iend oend lowPrefix rlow dictm dictSize
+            (mkD i (o + Z.of_nat (length lits)) m1 kf) tok with
+    | Err _ => True
+    | Cont f s' =>
+        (f = true -> op s' <= oend - 64) /\
+        exists ml (r4 : list Z), read_len (tok mod 16) r3 = Some (ml, r4) /\ (length r4 <= length r3)%nat /\ (1 <= length r4)%nat /\
+          ip s' = i + 2 + (Z.of_nat (length r3) - Z.of_nat (length r4)) /\
+          pseq_ok o rout lits (o1 + 256 * o2) ml false s'
+    | Done s' =>
+        exists ml (r4 : list Z), read_len (tok mod 16) r3 = Some (ml, r4) /\ pseq_ok o rout lits (o1 + 256 * o2) ml true s'
+    end.
+  Proof.
+    intros Hs Hb Hie Hne Htok Ho Hi Hoe O Hav.
+    destruct (nibbles tok Htok) as [_ Hnib].
+    pose proof (readLE16_src _ _ _ _ _ Hs) as Hle.
+    destruct (src_at_cons _ _ _ _ Hs) as [_ Hs1]. destruct (src_at_cons _ _ _ _ Hs1) as [_ Hs2].
+    destruct (bytes_cons _ _ Hb) as [Hb1 Hb']. destruct (bytes_cons _ _ Hb') as [Hb2 Hb3].
+    replace (i + 1 + 1) with (i + 2) in Hs2 by lia. cbn [length] in Hie.
+    remember (o1 + 256 * o2) as off eqn:Eoff.
+    assert (Hoff : 0 <= off <= 65535) by lia.
+    assert (Hvia_safe : forall p kf' ml (r4 : list Z),
+              read_len (tok mod 16) r3 = Some (ml, r4) -> (length r4 <= length r3)%nat -> (1 <= length r4)%nat -> tok mod 16 <= ml ->
+              p = i + 2 + (Z.of_nat (length r3) - Z.of_nat (length r4)) ->
+              match safe_match true dict oend lowPrefix rlow dictm dictSize (mkD p (o + Z.of_nat (length lits)) m1 kf') off (ml + 4) with
+              | Err _ => True
+              | Cont f s' => (f = true -> op s' <= oend - 64) /\
+                             exists ml (r4 : list Z), read_len (tok mod 16) r3 = Some (ml, r4) /\ (length r4 <= length r3)%nat /\ (1 <= length r4)%nat /\
+                               ip s' = i + 2 + (Z.of_nat (length r3) - Z.of_nat (length r4)) /\ pseq_ok o rout lits off ml false s'
+              | Done s' => exists ml (r4 : list Z), read_len (tok mod 16) r3 = Some (ml, r4) /\ pseq_ok o rout lits off ml true s'
+              end).
+    { intros p kf' ml r4 Hrl Hl Hl1 Hml Hp.
+      pose proof (safe_match_pany (mkD p (o + Z.of_nat (length lits)) m1 kf') off (ml + 4) Hoff ltac:(lia) ltac:(cbn [op]; lia) ltac:(cbn [op]; lia)) as HM.
+      destruct (safe_match true dict oend lowPrefix rlow dictm dictSize (mkD p (o + Z.of_nat (length lits)) m1 kf') off (ml + 4)) as [f s'|s'|s']; [| | exact I].
+      - destruct HM as (Hf & Hip' & Hm). cbn [ip op dm] in *.
+        split; [intros; subst f; discriminate|].
+        exists ml, r4. split; [exact Hrl|]. split; [exact Hl|]. split; [exact Hl1|]. split; [lia|].
+        apply (pseq_ok_intro o m1); try assumption; try lia;
+          try (intros H1o; destruct (Hm H1o) as [(Ha & Hb4 & Hc & Hd) He]; repeat split; assumption).
+      - destruct HM as (Hip' & Hm). cbn [ip op dm] in *.
+        exists ml, r4. split; [exact Hrl|].
+        apply (pseq_ok_intro o m1); try assumption; try lia;
+          try (intros H1o; destruct (Hm H1o) as [(Ha & Hb4 & Hc & Hd) He]; repeat split; assumption). }
+    assert (Hvia_fast : forall p kf' ml (r4 : list Z),
+              read_len (tok mod 16) r3 = Some (ml, r4) -> (length r4 <= length r3)%nat -> (1 <= length r4)%nat -> tok mod 16 <= ml ->
+              p = i + 2 + (Z.of_nat (length r3) - Z.of_nat (length r4)) ->
+              o + Z.of_nat (length lits) + (ml + 4) < oend - 64 ->
+              match fast_match true dict oend lowPrefix rlow dictm dictSize (mkD p (o + Z.of_nat (length lits)) m1 kf') off (ml + 4) with
+              | Err _ => True
+              | Cont f s' => (f = true -> op s' <= oend - 64) /\
+                             exists ml (r4 : list Z), read_len (tok mod 16) r3 = Some (ml, r4) /\ (length r4 <= length r3)%nat /\ (1 <= length r4)%nat /\
+                               ip s' = i + 2 + (Z.of_nat (length r3) - Z.of_nat (length r4)) /\ pseq_ok o rout lits off ml false s'
+              | Done s' => exists ml (r4 : list Z), read_len (tok mod 16) r3 = Some (ml, r4) /\ pseq_ok o rout lits off ml true s'
+              end).
+    { intros p kf' ml r4 Hrl Hl Hl1 Hml Hp Hroom.
+      pose proof (fast_match_pany (mkD p (o + Z.of_nat (length lits)) m1 kf') off (ml + 4) Hoff ltac:(lia) ltac:(cbn [op]; lia) ltac:(cbn [op]; lia)) as HM.
+      destruct (fast_match true dict oend lowPrefix rlow dictm dictSize (mkD p (o + Z.of_nat (length lits)) m1 kf') off (ml + 4)) as [f s'|s'|s']; [| contradiction | exact I].
+      destruct HM as (Hip' & Hop' & Hm). cbn [ip op dm] in *.
+      split; [intros _; lia|].
+      exists ml, r4. split; [exact Hrl|]. split; [exact Hl|]. split; [exact Hl1|]. split; [lia|].
+      apply (pseq_ok_intro o m1); try assumption; try lia.
+      intros H1o. destruct (Hm H1o) as (Hb4 & Hc & Hd).
+      replace (Z.min (ml + 4) (oend - (o + Z.of_nat (length lits)))) with (ml + 4) by lia.
+      split; [repeat split; assumption | left; reflexivity]. }
+    unfold fast_offset. cbv zeta. cbn [ip op dm ok]. rewrite Hle.
+    destruct (tok mod 16 =? ML_MASK) eqn:E15; cbv beta iota.
+    - pose proof (prvl_rev r3 (i + 2) (iend - LASTLITERALS + 1) false (kf && rd_src iend i 2) Hs2 ltac:(lia) ltac:(fin)) as HR.
+      destruct (rvl srcm iend (i + 2) (iend - LASTLITERALS + 1) false (kf && rd_src iend i 2)) as [[[addl|] p'] k']; [|exact I].
+      destruct HR as (v & r4 & H1 & H2 & H3 & H4 & H5).
+      pose proof (read_ext_ge _ _ _ _ Hb3 H1) as Hv.
+      assert (Hrl : read_len (tok mod 16) r3 = Some (v, r4)).
+      { unfold read_len. assert (E : (tok mod 16 =? 15) = true) by fin. rewrite E. exact H1. }
+      replace (tok mod 16 + addl + MINMATCH) with (v + 4) by fin.
+      destruct (o + Z.of_nat (length lits) + (v + 4) >=? oend - FASTLOOP_SAFE_DISTANCE) eqn:Efar; cbv beta iota.
+      + apply (Hvia_safe p' k' v r4 Hrl); try lia. fin.
+      + apply (Hvia_fast p' k' v r4 Hrl); try lia; fin.
+    - assert (Hrl : read_len (tok mod 16) r3 = Some (tok mod 16, r3)).
+      { unfold read_len. assert (E : (tok mod 16 =? 15) = false) by fin. rewrite E. reflexivity. }
+      replace (tok mod 16 + MINMATCH) with (tok mod 16 + 4) by fin.
+      destruct (o + Z.of_nat (length lits) + (tok mod 16 + 4) >=? oend - FASTLOOP_SAFE_DISTANCE) eqn:Efar; cbv beta iota.
+      + apply (Hvia_safe (i + 2) _ (tok mod 16) r3 Hrl); lia.
+      + destruct ((is_prefix64k dict || (o + Z.of_nat (length lits) - off >=? lowPrefix)) && (off >=? 8)) eqn:E18; cbv beta iota.
+        * split; [intros _; fin|].
+          exists (tok mod 16), r3. split; [exact Hrl|]. split; [lia|]. split; [lia|]. cbn [ip]. split; [lia|].
+          assert (Hmatge : lowPrefix <= o + Z.of_nat (length lits) - off).
+          { destruct (is_prefix64k dict) eqn:E64; [specialize (Hp64 eq_refl); lia | fin]. }
+          apply pseq_ok_copy18; try assumption; try lia; fin.
+        * apply (Hvia_fast (i + 2) _ (tok mod 16) r3 Hrl); try lia. fin.
+  Qed.
+
 End PRev.
